@@ -1160,6 +1160,8 @@ func (x *Exec) do1(line string) (res string, leanLine string) {
 		d := parseDecor(toks[1])
 		d.Populate()
 		return showDecor(d), line
+	case "leftdomain":
+		return "leftdomain", line
 	case "scribblerows":
 		// what AllRows returns is the caller's to overwrite, reorder and extend
 		rr := x.tables[idOf(toks[1])].AllRows()
